@@ -15,7 +15,6 @@ from concurrent.futures import ThreadPoolExecutor
 from vlib import *
 
 PID = "C19"
-INVS = "TypeOK MutexOK OwnerOK Exclusive IdleDisjoint Conservation ReuseOK ReuseTight DataIntact"
 ACTIONS = ["GetCall", "GetLock", "GetPop", "GetCreateBegin", "GetCreateEnd", "GetCreateFail", "GetReturn", "Use",
            "DropCall", "DropLock", "DropPush", "DropReturn", "Forget", "PoolReset", "PoolResetToStart", "PoolDrop"]
 
@@ -32,10 +31,9 @@ EMIT = {
               ("PSpec", "{1, 2}", 1, 1, "TRUE", "FALSE", None), ("SSpec", "{1, 2, 3}", 3, 2, "TRUE", "TRUE", 120)],
     "thorough": [("PSpec", "{1, 2}", 2, 0, "TRUE", "TRUE", None), ("PSpec", "{1, 2, 3}", 1, 0, "TRUE", "TRUE", None),
                  ("PSpec", "{1, 2}", 1, 1, "TRUE", "TRUE", None), ("PSpec", "{1, 2}", 3, 0, "FALSE", "FALSE", None),
-                 ("PSpec", "{1, 2}", 2, 1, "FALSE", "FALSE", None), ("PSpec", "{1, 2, 3}", 1, 1, "FALSE", "FALSE", None),
-                 ("PSpec", "{1, 2}", 1, 2, "TRUE", "FALSE", None),
-                 ("SSpec", "{1, 2, 3}", 3, 2, "TRUE", "TRUE", 2500), ("SSpec", "{1, 2, 3, 4}", 2, 1, "TRUE", "TRUE", 1200),
-                 ("SSpec", "{1, 2}", 4, 3, "TRUE", "TRUE", 800)],
+                 ("PSpec", "{1, 2}", 2, 1, "FALSE", "FALSE", None),
+                 ("SSpec", "{1, 2, 3}", 3, 2, "TRUE", "TRUE", 1500), ("SSpec", "{1, 2, 3, 4}", 2, 1, "TRUE", "TRUE", 800),
+                 ("SSpec", "{1, 2}", 4, 3, "TRUE", "TRUE", 500)],
 }
 FREE_RUNS = {"quick": 40, "thorough": 600}
 
@@ -522,14 +520,21 @@ def check_c19(tier):
         traces.append((r["run"], merged))
         nev += len(merged)
         if r["mode"] == "forced":
-            seq_merged += info["seq_order"]
+            seq_merged += 1 if info["seq_order"] else 0
             executed = [(s["ph"], st[0], st[1]) for s in evs if s["ev"] == "sched" for st in s["steps"]]
             bad = any(s["skipped"] or s["blocked"] or s["extra"] for s in evs if s["ev"] == "sched") or \
                 len(executed) != len(r["expect"]) or \
                 any(e[0] != x[0] or e[1] != x[1] or x[2] not in EXPECT_POINT[e[2]] for e, x in zip(r["expect"], executed))
             if bad:
                 sched_mismatch.append(r["run"])
-    accepted, rejected, viols = validate(wd, traces, nproc=6, part_events=max(4000, min(nev // 6 + 1, 25000)))
+    # instrumentation integrity: if the critical-section hook never fired although guards were handed out, the crate was
+    # built without (or with broken) hooks -- that is a tool problem, not an observation about the pool
+    n_cs = sum(1 for _, evs in traces for e in evs if e["ev"] == "get_cs")
+    n_done = sum(1 for _, evs in traces for e in evs if e["ev"] == "get_done")
+    if n_done and not n_cs:
+        raise ToolError("the POOL_LOCK_HELD hook never fired in %d runs (%d guards handed out): bump-scope was built without "
+                        "working cfg(bump_scope_verif) hooks" % (len(traces), n_done))
+    accepted, rejected, viols = validate(wd, traces, nproc=8 if thorough else 6, part_events=max(4000, min(nev // 6 + 1, 25000)))
     log("[C19] %d events validated: %d runs accepted, %d rejected, %d contract violations (%.0fs)"
         % (nev, len(accepted), len(rejected), len(viols), time.time() - t0))
     acc_set = set(accepted)
@@ -582,7 +587,7 @@ def check_c19(tier):
         "schedule_emission": [i for i, _ in emitted],
         "forced_schedules_executed": nforced, "free_running_runs": len(runs) - nforced,
         "runs_recorded": len(traces), "events_recorded": nev,
-        "forced_runs_validated_in_execution_order": nforced - seq_merged if not sched_mismatch else None,
+        "forced_runs_validated_in_execution_order": nforced - seq_merged,
         "accepted_by_trace_spec": len(accepted), "rejected_by_trace_spec": len(rejected),
         "contract_violations": len(viol_runs), "model_drift_runs": len(drift_runs),
         "not_examined_by_trace_spec_after_rejections": len(unexamined),
